@@ -16,7 +16,9 @@ BIG = sessions.BIGBUF
 K1 = gen_bytes("manual-key-1", 32)
 K2 = gen_bytes("manual-key-2", 32)
 
-SYMS = ["wd0", "wx0", "wd1", "wx1", "roA", "riA", "roB", "riB"] + ["m%s%s%d" % (p, d, k) for p in "AB" for d in "ir" for k in (1, 2)]
+SYMS = ["wd0", "wx0", "wd1", "wx1", "roA", "riA", "roB", "riB"] + ["m%s%s%d" % (p, d, k) for p in "AB" for d in "ir" for k in (1, 2)] + ["mAb1", "mBb1", "mAb2", "mBb2"]
+# m<party>b<k>: both directions in ONE rekey_manually(Some, Some) call (k=1: i:=K1, r:=K2; k=2: i:=K2, r:=K1)
+ONEWAY_SYMS = [i for i, s in enumerate(SYMS) if s not in ("wd1", "wx1")]
 
 
 class CheckC15(core.Check):
@@ -54,23 +56,32 @@ class CheckC15(core.Check):
             ln = rnd.randrange(4, 31)
             seq = [rnd.randrange(len(SYMS)) if rnd.random() < 0.5 else rnd.randrange(4) for _ in range(ln)]
             descs.append((rnd.choice(CIPHERS), rnd.choice(["D", "R", "DR"]), rnd.choice(["tr", "sl"]), ".".join(map(str, seq))))
+        # one-way pattern (only the initiator writes; rekeys of the unused direction must not disturb the used one)
+        for ci in CIPHERS:
+            for mode in ("tr", "sl"):
+                for ln in range(1, 4 if quick else 5):
+                    for seq in itertools.product(ONEWAY_SYMS, repeat=ln):
+                        if not any(SYMS[i][0] in "rm" for i in seq) or not any(SYMS[i][0] == "w" for i in seq):
+                            continue
+                        descs.append((ci, "D", mode, ".".join(map(str, seq)), "N"))
         return descs
 
     def build(self, desc):
-        ci, be, mode, seqs = desc
-        name = "Noise_XX_25519_%s_SHA256" % ci
+        ci, be, mode, seqs = desc[:4]
+        pat = desc[4] if len(desc) > 4 else "XX"
+        name = "Noise_%s_25519_%s_SHA256" % (pat, ci)
         parsed = parse_name_simple(name)
         keys = sessions.Keys(parsed, 15)
-        c = Case("rk-%s-%s-%s-%s" % (ci, be, mode, seqs), desc)
+        c = Case("rk-%s-%s-%s-%s-%s" % (pat, ci, be, mode, seqs), desc)
         sessions.add_pair(c, parsed, keys, res=(be, "D" if be == "D" else be), rng=("script:3", "script:4"), rec=("c", "c"))
-        sessions.add_handshake(c, parsed, ["-"] * 3)
+        sessions.add_handshake(c, parsed, ["-"] * parsed.nmsgs)
         st = mode == "sl"
         sessions.add_convert(c, stateless=st)
         steps = []
         cnt = [0, 0]
         # control: two plain messages per direction before any rekey. If these already differ from the model's AEAD
         # the build does not conform at the primitive level (C01/C18's business) and the case is not judged.
-        for d in (0, 1):
+        for d in ((0,) if parsed.oneway else (0, 1)):
             w, r = ("A", "B") if d == 0 else ("B", "A")
             for j in range(2):
                 kk = 1000 + 2 * d + j
@@ -95,6 +106,11 @@ class CheckC15(core.Check):
             elif sym[0] == "r":
                 lab = c.op("rekey_out" if sym[1] == "o" else "rekey_in", sym[2])
                 steps.append((lab, sym[:2], sym[2], None, k))
+            elif sym[2] == "b":
+                p = sym[1]
+                ki, kr = (K1, K2) if sym[3] == "1" else (K2, K1)
+                lab = c.op("rekey_manual", p, i=ki.hex(), r=kr.hex())
+                steps.append((lab, "mb", p, ki.hex() + "/" + kr.hex(), k))
             else:
                 p, d, kk = sym[1], sym[2], K1 if sym[3] == "1" else K2
                 lab = c.op("rekey_manual", p, i=kk.hex() if d == "i" else "-", r=kk.hex() if d == "r" else "-", flags=("sep",) if k % 2 else ())
@@ -108,8 +124,8 @@ class CheckC15(core.Check):
         if death is not None:
             r.foreign_dev("C10", "driver died")
             return r
-        ci, be, mode, seqs = case.info["key"]
-        tag = "%s/%s/%s" % (ci, be, mode)
+        ci, be, mode, seqs = case.info["key"][:4]
+        tag = "%s/%s/%s%s" % (ci, be, mode, "/one-way" if len(case.info["key"]) > 4 else "")
         st = case.info["st"]
         by = {e.label: e for e in events}
         # initial keys: the last two `c set` events on each party during the handshake (Split: initiator key, responder key)
@@ -207,13 +223,17 @@ class CheckC15(core.Check):
                     key[p][dd] = prims.rekey(ci, key[p][dd])
                 elif kind == "mi":
                     key[p][0] = bytes.fromhex(d)
+                elif kind == "mb":
+                    ki, kr = d.split("/")
+                    key[p][0] = bytes.fromhex(ki)
+                    key[p][1] = bytes.fromhex(kr)
                 else:
                     key[p][1] = bytes.fromhex(d)
-                last_rk = {"ro": "rekey_outgoing", "ri": "rekey_incoming", "mi": "manual-initiator-key", "mr": "manual-responder-key"}[kind]
+                last_rk = {"ro": "rekey_outgoing", "ri": "rekey_incoming", "mi": "manual-initiator-key", "mr": "manual-responder-key", "mb": "manual-both-keys"}[kind]
             if not st:
                 o = e.obs()
                 if o.get("sn") != str(sn[p]) or o.get("rn") != str(rn[p]):
-                    if kind in ("ro", "ri", "mi", "mr"):
+                    if kind in ("ro", "ri", "mi", "mr", "mb"):
                         r.viol("C15|nonce-changed|%s" % last_rk, "%s: %s changed a nonce: sending=%s receiving=%s, model %d / %d" % (tag, last_rk, o.get("sn"), o.get("rn"), sn[p], rn[p]))
                     else:
                         r.foreign_dev("C09", "nonce getter differs from the model")
